@@ -25,7 +25,14 @@ ChunkRows == {[kind |-> "chunk", cls |-> k, enc |-> e, text |-> t, cuts |-> SetT
                   t \in {"plain", "rule", "rulecut", "empty"}, S \in CutSets}
              \cup {[kind |-> "chunk", cls |-> k, enc |-> e, text |-> t, cuts |-> <<>>, every |-> TRUE] :
                   k \in {"incdec", "incenc", "reader", "writer"}, e \in Encodings \ {"ascii"}, t \in {"plain", "rule", "rulecut", "empty"}}
-Rows == DetectRows \cup CharsetRows \cup RoundRows \cup ChunkRows
+\* force=False with a given encoding that DISAGREES with the explicit statement in the bytes: the statement wins, however the
+\* bytes are cut (the decision must wait until the BOM / the @charset rule is complete)
+NoForceRows == {[kind |-> "chunk", cls |-> k, enc |-> e, text |-> t, cuts |-> SetToSortSeq(S, <), every |-> FALSE] :
+                  k \in {"incdec-noforce", "reader-noforce"}, e \in {"utf-8-sig", "utf-16", "utf-32", "utf-8", "koi8-r"},
+                  t \in {"plain", "rule"}, S \in CutSets}
+               \cup {[kind |-> "chunk", cls |-> k, enc |-> e, text |-> t, cuts |-> <<>>, every |-> TRUE] :
+                  k \in {"incdec-noforce", "reader-noforce"}, e \in {"utf-8-sig", "utf-16", "utf-32", "utf-8", "koi8-r"}, t \in {"plain", "rule"}}
+Rows == DetectRows \cup CharsetRows \cup RoundRows \cup ChunkRows \cup NoForceRows
 Init == row \in Rows
 Next == UNCHANGED row
 Spec == Init /\ [][Next]_row
